@@ -61,7 +61,7 @@ class StateScenario(Scenario):
 
     def weights(self, rng):
         w = {"set": 6, "assign_sub": 2, "load_tree": 2, "loads": 1.5, "loads_bad": 0.5, "reset": 1.5, "lop": 3, "dop": 2,
-             "ctor": 0.7, "dyn": 0.7, "load_bad": 0.3, "set_from": 0.8, "render": 0.4}
+             "ctor": 0.7, "dyn": 0.7, "load_bad": 0.3, "set_from": 0.8, "render": 0.4, "cmdline": 0.6 if self.prop == "C01" else 0}
         if self.prop == "C06":
             w.update({"loads_bad": 2.5, "load_bad": 1.0, "assign_sub": 3})
         if self.prop == "C12":
@@ -353,6 +353,41 @@ class StateScenario(Scenario):
             return None
         sp = rng.choice(src)
         return {"op": "set_from", "path": d.path, "src": sp.path, "src_cfg": src_cfg}
+
+    def gen_cmdline(self, st, rng, cfg, tgts, cfgpaths, owners):
+        """A command-line override of a few scalar fields (valid and invalid values alike)."""
+        scal = [t for t in tgts if "[" not in t.path and t.node["kind"] in ("string", "int", "float", "port", "bool", "ipv4addr", "ipv4net",
+                                                                               "hostname", "url", "loglevel", "appmode", "secure")]
+        if not scal:
+            return None
+        argv = []
+        for t in rng.sample(scal, min(len(scal), rng.randint(1, 3))):
+            opt = "--" + t.path.replace(".", "-").replace("_", "-").lower()
+            if t.node["kind"] == "bool":
+                argv.append(opt if rng.random() < 0.5 else "--no-" + opt[2:])
+                continue
+            v = values.gen_value(rng, t.node, self._want(st, rng), st.ctx)
+            sv = v if isinstance(v, str) else repr(v) if isinstance(v, (int, float)) and not isinstance(v, bool) else None
+            if sv is None or sv.startswith("-") or sv == "":
+                continue
+            argv += [opt, sv]
+        return {"op": "cmdline", "argv": argv}
+
+    def do_cmdline(self, st, cfg, c, op, rec):
+        from cincoconfig.support import cmdline_args_override, generate_argparse_parser
+        parser, err = self._call(lambda: generate_argparse_parser(st.B.root, prog="sim", add_help=False))
+        if err is not None:
+            rec.log("cmdline", "no-parser")
+            return
+        try:
+            ns = parser.parse_args(list(op["argv"]))
+        except SystemExit:
+            rec.log("cmdline", "usage")
+            return
+        _, err = self._call(lambda: cmdline_args_override(cfg, ns))
+        rec.log("cmdline", op["argv"], type(err).__name__ if err else "ok")
+        rec.kind("ok" if err is None else "rej")
+        rec.probe("cmdline-override:" + ("applied" if err is None else "rejected"))
 
     def gen_render(self, st, rng, cfg, tgts, cfgpaths, owners):
         return {"op": "render", "how": rng.choice(["to_tree", "to_tree_virtual", "dumps_json", "dumps_pickle", "asdict", "validate"])}
